@@ -1,12 +1,12 @@
 SPECIFICATION Spec
 CONSTANTS
-  ShapeSet <- ShapesCrashChk
+  ShapeSet <- ShapesCrash2
   SeqOutcomes <- OkPerm
   ChkOutcomes <- OkPerm
-  MaxCrashes = 1
+  MaxCrashes = 2
   MaxRuns = 1
   Tolerated <- KnownRecoveryAny
-  FnOut = FALSE
+  FnOut = TRUE
   Gen = "off"
 INVARIANTS NoClauseViolated InvQuiescentAtRelease InvDurLagsMem
 CHECK_DEADLOCK TRUE
